@@ -4,6 +4,24 @@ import Skv.Props.C09
 #print axioms C09_seek_first
 #print axioms C09_seek
 #print axioms C09_position_to_min
+#print axioms Positioned.key
+#print axioms C09_next
+#print axioms C09_prev
+#print axioms C09_seek_last
+#print axioms le_bound
+#print axioms GreatestLT_top
+#print axioms posMin_xs
+#print axioms posMax_xs
+#print axioms eqCheck_xs
+#print axioms turnFwd_xs
+#print axioms turnBwd_xs
+#print axioms stepFwd_xs
+#print axioms stepBwd_xs
+#print axioms apply_xs
+#print axioms C09_seek_first_any
+#print axioms key_of_cur_none
+#print axioms C09_cursor_trace
+#print axioms C09_cursor_trace_fresh
 /-- non-vacuity and the pre-fix defect (P1): snapshot {3}, write set {2}: seek_last, prev, next must
 return to 3 -/
 example : ((TI.start [3] [(2, false)]).seekLast.prev.next).key = some 3 := by decide
